@@ -85,7 +85,11 @@ func (b *backend) ServeHTTP(w http.ResponseWriter, r *http.Request) {
 			mode = "ok"
 		}
 	}
-	if mode != "abort-now" {
+	if mode == "abort-slow" {
+		// the backend takes a second to fail (a stall, a slow reset)
+		time.Sleep(slowAbort)
+	}
+	if mode != "abort-now" && mode != "abort-slow" {
 		g := b.gate.Load().(chan struct{})
 		select {
 		case <-g:
@@ -567,6 +571,8 @@ func burst(c *lib.Ctx, st setting, bks []*backend, rng *lib.Rng, seq int) {
 
 // downness: a backend is treated as down exactly while it has >= max_fails
 // unexpired failures.
+const slowAbort = 1000 * time.Millisecond
+
 func downness(c *lib.Ctx, bks []*backend, rng *lib.Rng) {
 	atomic.StoreInt32(&delayOn, 0)
 	open := make(chan struct{})
@@ -580,6 +586,13 @@ func downness(c *lib.Ctx, bks []*backend, rng *lib.Rng) {
 		st := setting{Hosts: 2, Policy: "first", MaxConns: 0, MaxFails: mf, FailTimeout: "1500ms", TryDuration: "0", N: 1, Health: r%2 == 1}
 		if r%4 == 3 {
 			st.Hosts = 1 // a pool of one: while it is down nobody is asked
+		}
+		failMode, failDelay := "abort-now", time.Duration(0)
+		if r%4 == 2 {
+			// failures that take a second to show: each one still counts for the
+			// whole fail_timeout from the moment it is recorded
+			failMode, failDelay = "abort-slow", slowAbort
+			st.MaxFails, mf = 1, 1
 		}
 		c.Journal("C14 downness %s", lib.JSON(st))
 		u, err := mk(st, bks)
@@ -599,14 +612,14 @@ func downness(c *lib.Ctx, bks []*backend, rng *lib.Rng) {
 			return code, rec.Header().Get("X-Backend")
 		}
 		c.Eval(1)
-		tFirst := time.Now()
+		tFirst := time.Now().Add(failDelay) // no failure is recorded before this
 		ok := true
 		// max_fails-1 failures: host 0 must stay eligible
 		for k := 0; k < mf; k++ {
 			if k > 0 || mf == 1 {
 				// before the k-th failure (k < mf) the host has k < mf failures: eligible
 			}
-			code, _ := send("abort-now", fmt.Sprintf("d%d-f%d", r, k))
+			code, _ := send(failMode, fmt.Sprintf("d%d-f%d", r, k))
 			if code != 502 {
 				c.Violation("C14/abort-not-reported", fmt.Sprintf("aborted forward answered %d", code), st)
 				ok = false
@@ -635,6 +648,13 @@ func downness(c *lib.Ctx, bks []*backend, rng *lib.Rng) {
 					c.Violation("C14/fails-lost", fmt.Sprintf("host 0 fail count %d while %d failures are unexpired (passing health checks in between)", f, mf), st)
 				}
 			}
+		}
+		if failDelay > 0 {
+			// well into the fail_timeout of the failure just recorded, still short of its end
+			if d := time.Until(tFirst.Add(800 * time.Millisecond)); d > 0 {
+				time.Sleep(d)
+			}
+			c.Count("downness_checks_late_in_fail_timeout", 1)
 		}
 		hits0 := atomic.LoadInt64(&bks[0].entered)
 		for k := 0; k < 5; k++ {
